@@ -161,6 +161,10 @@ type Lab struct {
 	// harness owns this piece of the schedule (API lab: a Start that holds a stale read while another Start runs).
 	slowReadNth, slowReadUs int
 	nReads                  int
+	// searchFault > 0: the stream of the FIRST Search of this vault breaks (an error result, then the stream is closed)
+	// after searchFault-1 results (crash lab: a storage hiccup during start-up recovery).
+	searchFault int
+	nSearches   int
 }
 
 // LogLine is the on-disk form of an event (write-fault child runs).
@@ -612,6 +616,39 @@ func (v *RecVault) Read(ctx context.Context, id uuid.UUID) (*workflow.Plan, erro
 		time.Sleep(time.Duration(us) * time.Microsecond)
 	}
 	return p, err
+}
+
+// Search forwards to the inner vault; the first search's stream can be made to break (see Lab.searchFault).
+func (v *RecVault) Search(ctx context.Context, filters storage.Filters) (chan storage.Stream[storage.ListResult], error) {
+	ch, err := v.Vault.Search(ctx, filters)
+	l := v.lab
+	l.mu.Lock()
+	l.nSearches++
+	k := -1
+	if l.searchFault > 0 && l.nSearches == 1 {
+		k = l.searchFault - 1
+	}
+	l.mu.Unlock()
+	if err != nil || k < 0 {
+		return ch, err
+	}
+	out := make(chan storage.Stream[storage.ListResult], 1)
+	go func() {
+		defer close(out)
+		n := 0
+		for r := range ch {
+			if n == k {
+				out <- storage.Stream[storage.ListResult]{Err: errors.New("injected failure of the search stream")}
+				for range ch { // release the vault's connection
+				}
+				l.note("search stream broken after %d result(s)", k)
+				return
+			}
+			out <- r
+			n++
+		}
+	}()
+	return out, nil
 }
 
 // Recovery forwards storage.Recovery when the inner vault has it.
